@@ -43,6 +43,8 @@ package query
 //@ func github.com/lindb/lindb/query/stage.Stage.Identifier
 //@ end
 
+//@ # representation invariant of the state machine
+//@ predicate smOK(sm *pipelineStateMachine) bool = sm != nil && sm.stages != nil && sm.tracker != nil && sm.failed == (sm.err != nil) && all(k, "string", has(sm.stages, k) ==> (sm.stages[k] != nil && sm.stages[k].stats != nil && sm.stages[k].stage != nil))
 //@ func pipelineStateMachine.complete
 //@   prop C19
 //@   modifies sm.completed.val, sm.cbCount, sm.cbWithErr
@@ -57,16 +59,77 @@ package query
 //@ func pipelineStateMachine.completeStage
 //@   prop C19
 //@   ghost_entry sm.failed = sm.failed || err != nil
-//@   requires sm.failed == (sm.err != nil)
-//@   requires sm.stages != nil && all(k, "string", has(sm.stages, k) ==> (sm.stages[k] != nil && sm.stages[k].stats != nil && sm.stages[k].stage != nil))
+//@   ghost_assign sm.done = store(sm.done, stageID, true)
+//@   requires smOK(sm)
 //@   modifies *
 //@   ensures[signalled_at_most_once] sm.cbCount <= 1
 //@   ensures[failure_recorded] (err != nil ==> sm.failed) && sm.failed == (sm.err != nil)
+//@   ensures[state_ok] smOK(sm)
+//@   ensures[marked_done] sm.done[stageID] && all(k, "string", k != stageID ==> sm.done[k] == old(sm.done[k]))
 //@ end
 //@ func pipelineStateMachine.executeStage
 //@   prop C19
-//@   requires sm.stages != nil && stage != nil && sm.tracker != nil && all(k, "string", has(sm.stages, k) ==> (sm.stages[k] != nil && sm.stages[k].stats != nil && sm.stages[k].stage != nil))
+//@   requires smOK(sm) && stage != nil
 //@   requires parentStageID == "" || has(sm.stages, parentStageID)
+//@   requires[child_registered_while_parent_pending] parentStageID == "" || !sm.done[parentStageID]
 //@   modifies *
 //@   ensures[signalled_at_most_once] sm.cbCount <= 1
+//@   ensures[done_unchanged] sm.done == old(sm.done)
+//@   ensures[state_ok] smOK(sm) && has(sm.stages, stageID)
+//@ end
+
+//@ # ---- pipeline (C19): children are registered before their parent completes -------------------
+//@ # done[id]: completeStage(id, ..) has been called (ghost)
+//@ ghost field pipelineStateMachine.done map[string]bool
+//@ stable pipeline.sm
+//@ func github.com/lindb/lindb/query/stage.Stage.NextStages
+//@   ensures all(i, "int", (i >= 0 && i < len(result)) ==> true)
+//@ end
+//@ func github.com/lindb/lindb/query/stage.Stage.Plan
+//@ end
+//@ # a stage implementation is client code: assumed to invoke exactly one of its two handlers
+//@ func github.com/lindb/lindb/query/stage.Stage.Execute
+//@   requires completeHandle != nil && errHandle != nil
+//@   modifies *
+//@ end
+//@ # what the completion closure relies on when it registers a child (the body is verified
+//@ # below under the contract pipeline.executeStage#body): the parent is not completed by it.
+//@ # This rests on stage ids being unique (uuid), which is assumed.
+//@ func pipeline.executeStage
+//@   assume
+//@   requires smOK(p.sm) && (parentStageID == "" || (!p.sm.done[parentStageID] && has(p.sm.stages, parentStageID)))
+//@   modifies *
+//@   ensures smOK(p.sm) && (parentStageID != "" ==> (!p.sm.done[parentStageID] && has(p.sm.stages, parentStageID)))
+//@ end
+//@ func pipeline.executeStage#body
+//@   prop C19
+//@   requires smOK(p.sm) && (parentStageID == "" || (!p.sm.done[parentStageID] && has(p.sm.stages, parentStageID)))
+//@   modifies *
+//@ end
+//@ # completion handler of a stage: every child is registered while this stage is still pending,
+//@ # completeStage comes last (so pending cannot reach zero before the children are counted)
+//@ func pipeline.executeStage$1
+//@   prop C19
+//@   requires p != nil && smOK(p.sm) && stage != nil && !p.sm.done[stageID] && stageID != "" && has(p.sm.stages, stageID)
+//@   modifies *
+//@   ensures[completed_last] p.sm.done[stageID]
+//@   loop 1 invariant p != nil
+//@   loop 1 invariant smOK(p.sm)
+//@   loop 1 invariant !p.sm.done[stageID]
+//@   loop 1 invariant has(p.sm.stages, stageID)
+//@ end
+//@ func pipeline.executeStage$2
+//@   prop C19
+//@   requires p != nil && smOK(p.sm)
+//@   modifies *
+//@   ensures[completed] p.sm.done[stageID]
+//@ end
+
+//@ # entry point: a panic that reaches it completes the pipeline with a non-nil error
+//@ stable pipeline.logger
+//@ func pipeline.Execute
+//@   prop C19
+//@   requires smOK(p.sm) && p.logger != nil
+//@   modifies *
+//@   ensures_recovered[panic_completes_with_error] p.sm.completed.val && p.sm.cbCount <= 1
 //@ end
